@@ -67,10 +67,12 @@ def complement_dsDNA(meta_molecule):
     """
     last_node = list(meta_molecule.nodes)[-1]
     resname = BASE_LIBRARY[meta_molecule.nodes[last_node]["resname"]]
-    meta_molecule.add_monomer(last_node+1, resname, [])
+    # the keys of the new residues continue after the highest key in
+    # use, which need not be the key of the last residue
+    total = max(meta_molecule.nodes) + 1
+    meta_molecule.add_monomer(total, resname, [])
 
-    correspondance = {last_node: last_node+1}
-    total = last_node+1
+    correspondance = {last_node: total}
 
     pbar = tqdm(total=len(meta_molecule.nodes))
     for prev_node, next_node in _dna_edge_iterator(meta_molecule, source=last_node):
